@@ -16,26 +16,27 @@ Fixpoint split_sizes (sizes : list nat) (data : list N) : list (list N) :=
   end.
 
 (* ---- fan-out ---- *)
-(** id, data, sizes of the upstream reads, buffer sizes of the two consumers, schedule seed,
+(** id, data, sizes of the upstream reads, whether the last of them comes together with io.EOF,
+    buffer sizes of the two consumers, schedule seed,
     (ok, bytes consumer 1 received, bytes consumer 2 received) *)
-Definition fanout_case := (N * list N * list nat * nat * nat * N * (bool * list N * list N))%type.
+Definition fanout_case := (N * list N * list nat * bool * nat * nat * N * (bool * list N * list N))%type.
 
 Definition fthread_of (b1 b2 : nat) (t : nat) : fthread :=
   match t with 0 => TProducer | 1 => TCons1 b1 | 2 => TCons2 b2 | _ => TGroup end.
 
-Definition run_fanout (data : list N) (sizes : list nat) (b1 b2 : nat) (seed : N) : fstate :=
-  let s0 := init_fanout (split_sizes sizes data) in
+Definition run_fanout (data : list N) (sizes : list nat) (eofdata : bool) (b1 b2 : nat) (seed : N) : fstate :=
+  let s0 := init_fanout_eof (split_sizes sizes data) eofdata in
   let s1 := frun (map (fthread_of b1 b2) (lcg (4 * (length data + length sizes + 4)) seed 4)) s0 in
   frun (concat (repeat [TProducer; TCons1 b1; TCons2 b2; TGroup] (S (fmeasure s1)))) s1.
 
 Definition check_fanout (c : fanout_case) : bool :=
-  let '(_, data, sizes, b1, b2, seed, obs) := c in
+  let '(_, data, sizes, eofdata, b1, b2, seed, obs) := c in
   let '(ok, got1, got2) := obs in
-  let s := run_fanout data sizes b1 b2 seed in
+  let s := run_fanout data sizes eofdata b1 b2 seed in
   ok && fmarker s && nlist_eqb (concat (fp1 s)) got1 && nlist_eqb (concat (fp2 s)) got2.
 
 Definition mismatches_fanout (cs : list fanout_case) : list N :=
-  map (fun c => let '(id, _, _, _, _, _, _) := c in id) (filter (fun c => negb (check_fanout c)) cs).
+  map (fun c => let '(id, _, _, _, _, _, _, _) := c in id) (filter (fun c => negb (check_fanout c)) cs).
 
 (* ---- bsdiff dispatcher / workers / collector ---- *)
 (** id, workers, channel capacity, matches per block, schedule seed,
